@@ -1,6 +1,7 @@
 import Sourcer.Wire
 import Sourcer.EnvWire
 import Sourcer.Proofs.OpShape
+import Sourcer.Proofs.Chain
 /-
   Line protocol driver: one request per line on stdin, one reply per line on stdout.
 
@@ -14,6 +15,7 @@ import Sourcer.Proofs.OpShape
     (replace O (i V) …)                   → `O._replace(field_i=V, …)`
     (machine (start k) (fuel n) (bodies (k FPROG) …))  → event trace of the `_run` model
     (prepare (rule name ign E) …)         → the prepared program (model of the translator's front half)
+    (flatten (n N) (levels (lvl (k E) …) …)) → the rules of the flattened grammar of a chain (`Chain.flatProg`)
 -/
 open Sourcer Sexp
 
@@ -145,6 +147,22 @@ def handle (st : St) (line : String) : St × String :=
     match r with
     | some out => (st, out)
     | none => (st, "error bad-machine-request")
+  | some (.list (.atom "flatten" :: xs)) =>
+    -- (flatten (n N) (levels (lvl (k E) …) …)): the rules of `Chain.flatProg`, level 0 = the grammar entered
+    let r : Option String := do
+      let n ← (← (← field "n" xs).head?).nat?
+      let lvls ← field "levels" xs
+      let levels ← lvls.mapM fun l => match l with
+        | .list (.atom "lvl" :: defs) => defs.mapM fun d => match d with
+          | .list [k, e] => do pure (← k.nat?, ← decodeExpr e)
+          | _ => none
+        | _ => none
+      let C : Sourcer.Chain.Chain := ⟨n, levels.map fun defs => fun k => (defs.find? (·.1 == k)).map (·.2)⟩
+      let base : Program := { rules := [], ignored := none, matcher := fun _ _ _ => none, bytesMode := false }
+      pure ("(rules" ++ encodeList (Sourcer.Chain.flatProg C base).rules ++ ")")
+    match r with
+    | some out => (st, out)
+    | none => (st, "error bad-flatten-request")
   | some (.list (.atom "tagcheck" :: xs)) =>
     match xs.mapM decodeExpr with
     | some es => (st, " ".intercalate (es.map fun e => if allTablesTagged e then "1" else "0"))
